@@ -70,6 +70,12 @@ for pid in sorted(seeded):
             sg = "; ".join(res.get("violation_signatures", [])[:3]).replace("|", "/")[:240]
         out.append("| %s | %s | %s — needs: %s | %s | %s |" % (sid, pid, s, n, c, sg))
 out.append("")
+import subprocess
+log = subprocess.run(["git", "-C", "/repo", "log", "--reverse", "--format=%h %s", "f51f9d7..HEAD"], capture_output=True, text=True).stdout.strip().splitlines()
+out += ["### 11.5 `fix:` commits made in /repo (one per repaired defect, unguarded, existing suite passes)", ""]
+for l in log:
+    out.append("- `%s` %s" % (l.split(" ", 1)[0], l.split(" ", 1)[1]))
+out.append("")
 p = os.path.join(V, "DESIGN.md")
 s = open(p).read()
 i = s.find(MARK)
